@@ -1,3 +1,4 @@
+\* same constants as checks/C14.py uses for the bounded-exhaustive history generation (keep mode)
 SPECIFICATION Spec
 CONSTANTS
   NS = 3
